@@ -658,3 +658,4 @@ def filtered(old, new, idx, pos, inits):
                                    "0 <= g_pos[j] and g_pos[j] < len(box(new_inputs)) and g_idx[g_pos[j]] == j))"],
                    modifies=[LVt.cls + ".$v"])},
         ensures=[], raises_default=[], modifies=None, assert_mode="raise"))
+
